@@ -131,6 +131,13 @@ Definition set_key (s : stream) (k iv : bytes) : sres stream :=
 Definition finalize_digests (s : stream) : stream :=
   upd_send s (enc_ctr s) (fin_send_aad s) (dg_finalize (send_dg s)) (dg_finalize (recv_dg s)).
 
+(* first-frame / later-frame associated data; digests are frozen (finalised) when first used *)
+Definition fin_dg (fin : bool) (d : dstate) : dstate := if fin then d else dg_finalize d.
+Definition aad_send (s : stream) (hdr : bytes) : aad :=
+  if fin_send_aad s then AadHdr hdr else AadFirst (dg_value (send_dg s)) (dg_value (recv_dg s)) hdr.
+Definition aad_recv (s : stream) (hdr : bytes) : aad :=
+  if fin_recv_aad s then AadHdr hdr else AadFirst (dg_value (recv_dg s)) (dg_value (send_dg s)) hdr.
+
 (* ---- sender: sendMessageWithEnd ------------------------------------ *)
 Definition send_frame (s : stream) (data : bytes) (flag : N) : stream * sres frame :=
   if MaxMessageSize <? lenN data then (s, SErr ETooLarge) else
@@ -142,11 +149,10 @@ Definition send_frame (s : stream) (data : bytes) (flag : N) : stream * sres fra
         let wlen := lenN data + GcmTagSize + (if first then GcmTagSize else 0) in
         let hdr := hdr_of flag wlen in
         let nonce := nonce_of (enc_iv s) (enc_ctr s) in
-        let sd := if fin_send_aad s then send_dg s else dg_finalize (send_dg s) in
-        let rd := if fin_send_aad s then recv_dg s else dg_finalize (recv_dg s) in
-        let a := if fin_send_aad s then AadHdr hdr else AadFirst (dg_value sd) (dg_value rd) hdr in
+        let sd := fin_dg (fin_send_aad s) (send_dg s) in
+        let rd := fin_dg (fin_send_aad s) (recv_dg s) in
         let f := {| f_flag := flag;
-                    f_body := Ct (if first then Some (enc_iv s) else None) (seal k nonce a data) |} in
+                    f_body := Ct (if first then Some (enc_iv s) else None) (seal k nonce (aad_send s hdr) data) |} in
         (upd_send s (enc_ctr s + 1) true (dg_write sd (hdr ++ data)) rd, SOk f)
       else
         let hdr := hdr_of flag (lenN data) in
@@ -163,26 +169,37 @@ Definition max_wire (s : stream) : N :=
   if enc_active s then MaxMessageSize + WireSlack else MaxMessageSize.
 
 (* decryptDataWithAAD on an encrypting stream *)
+Definition decrypt_with (s : stream) (k hdr div : bytes) (c : ctext) : stream * sres bytes :=
+  match open k (nonce_of div (dec_ctr s)) (aad_recv s hdr) c with
+  | Some p => (upd_recv s div (dec_ctr s + 1) true
+                 (fin_dg (fin_recv_aad s) (send_dg s)) (fin_dg (fin_recv_aad s) (recv_dg s)), SOk p)
+  | None => (s, SErr EDecrypt)
+  end.
 Definition decrypt (s : stream) (k : bytes) (hdr : bytes) (b : body) : stream * sres bytes :=
   match b with
   | Raw _ => (s, SErr EDecrypt)                 (* not a ciphertext term: fails to open *)
   | Ct ivo c =>
-      let expect_iv := dec_ctr s =? 0 in
-      let go (div : bytes) :=
-        let nonce := nonce_of div (dec_ctr s) in
-        let sd := if fin_recv_aad s then send_dg s else dg_finalize (send_dg s) in
-        let rd := if fin_recv_aad s then recv_dg s else dg_finalize (recv_dg s) in
-        let a := if fin_recv_aad s then AadHdr hdr else AadFirst (dg_value rd) (dg_value sd) hdr in
-        match open k nonce a c with
-        | Some p => (upd_recv s div (dec_ctr s + 1) true sd rd, SOk p)
-        | None => (s, SErr EDecrypt)
-        end in
-      match expect_iv, ivo with
-      | true, Some iv => if lenN iv =? 16 then go iv else (s, SErr EDecrypt)
-      | false, None => go (dec_iv s)
+      match dec_ctr s =? 0, ivo with
+      | true, Some iv => if lenN iv =? 16 then decrypt_with s k hdr iv c else (s, SErr EDecrypt)
+      | false, None => decrypt_with s k hdr (dec_iv s) c
       | _, _ => (s, SErr EDecrypt)
       end
   end.
+
+(* body of an accepted non-empty frame -> cleartext *)
+Definition recv_body (s : stream) (hdr : bytes) (b : body) : stream * sres bytes :=
+  if enc_active s then
+    match key s with
+    | Some k => decrypt s k hdr b
+    | None => (s, SErr EState)
+    end
+  else match b with
+       | Raw bs => (s, SOk bs)
+       | Ct _ _ => (s, SErr EOpaque)    (* ciphertext bytes have no plaintext reading in the model *)
+       end.
+(* feed the receive digest (no-op once frozen) *)
+Definition note_recv (s : stream) (bs : bytes) : stream :=
+  upd_recv s (dec_iv s) (dec_ctr s) (fin_recv_aad s) (send_dg s) (dg_write (recv_dg s) bs).
 
 (* common part of ReceiveFrame / ReceiveFrameWithEnd; [with_end] selects the digest
    treatment of zero-length frames *)
@@ -193,25 +210,11 @@ Definition recv_frame_gen (with_end : bool) (s : stream) (f : frame) : stream * 
   else if (if with_end then FlagMaxRecvWE else FlagMaxRecv) <? f_flag f then (s, SErr EBadFlag)
   else if len =? 0 then
     if enc_active s then (s, SErr EZeroEnc)
-    else if with_end
-         then (upd_recv s (dec_iv s) (dec_ctr s) (fin_recv_aad s) (send_dg s) (dg_write (recv_dg s) hdr),
-               SOk ([], f_flag f))
+    else if with_end then (note_recv s hdr, SOk ([], f_flag f))
          else (s, SOk ([], f_flag f))
   else
-    let clear :=
-      if enc_active s then
-        match key s with
-        | Some k => decrypt s k hdr (f_body f)
-        | None => (s, SErr EState)
-        end
-      else match f_body f with
-           | Raw bs => (s, SOk bs)
-           | Ct _ _ => (s, SErr EOpaque)    (* ciphertext bytes have no plaintext reading in the model *)
-           end in
-    match clear with
-    | (s1, SOk d) =>
-        (upd_recv s1 (dec_iv s1) (dec_ctr s1) (fin_recv_aad s1) (send_dg s1) (dg_write (recv_dg s1) (hdr ++ d)),
-         SOk (d, f_flag f))
+    match recv_body s hdr (f_body f) with
+    | (s1, SOk d) => (note_recv s1 (hdr ++ d), SOk (d, f_flag f))
     | (s1, SErr e) => (s1, SErr e)
     end.
 Definition recv_frame_we := recv_frame_gen true.       (* ReceiveFrameWithEnd *)
